@@ -396,6 +396,8 @@ def p_feasible(thorough=False, timeout=150):
             for layout in ("private", "shared1", "shared2", "mixed", "chainshare"):
                 if layout == "chainshare" and any(k in (2, 3) for k in ks):
                     continue  # the strong feasibility predicate asks for private workers with FF/SF links
+                if len(es) == 3 and (layout in ("shared2", "chainshare") or len(set(ks)) > 2):
+                    continue  # (budget) the complete three-task graph: private / shared1 / mixed workers, at most two kinds of dependency
                 if layout == "private":
                     ws = [{"skills": {str(i): ("$s%d" % i)}, "abs": (["$a0"] if i == 0 else [])} for i in range(T)]
                 elif layout.startswith("shared"):
